@@ -243,8 +243,11 @@ PROBES = {
     'C02': ['structures', 'headers'], 'C03': ['structures'], 'C04': ['structures'], 'C05': ['structures'], 'C06': ['structures'],
     'C08': ['headers'], 'C12': ['headers'], 'C09': ['framing', 'headers'], 'C13': ['framing'], 'C14': ['framing'],
     'C15': ['integers'], 'C16': ['order'], 'C20': ['order'],
-    'C10': ['keys'], 'C18': ['claims', 'integers'], 'C19': ['builders'], 'C07': ['roundtrip'], 'C11': ['roundtrip', 'structures'], 'C01': ['roundtrip', 'framing'],
+    'C10': ['keys'], 'C18': ['claims', 'integers'], 'C19': ['builders'], 'C07': ['roundtrip'], 'C11': ['roundtrip'], 'C01': ['roundtrip', 'framing'],
 }
+
+# properties about panics / termination only: postcondition-only failures of functions NOT matching these patterns do not count
+SAFETY_ONLY = {'C01': ('*from_cbor_*', '*::from_slice', '*::from_tagged_slice', '*read_to_value', '*try_as_*')}
 
 # items that must FAIL verification (vacuity / soundness canaries), checked on every run
 MUST_FAIL = ['vcanary::canary_false', 'vcanary::canary_axioms']
